@@ -102,10 +102,12 @@ func (p *contentProvider) findOffset(filename bool, r uint32) uint32 {
 	sample := p.id.runeOffsets
 	runeEnds := p.id.fileEndRunes
 	fileStartByte := p.id.boundaries[p.idx]
+	fileEndByte := p.id.boundaries[p.idx+1]
 	if filename {
 		sample = p.id.fileNameRuneOffsets
 		runeEnds = p.id.fileNameEndRunes
 		fileStartByte = p.id.fileNameIndex[p.idx]
+		fileEndByte = p.id.fileNameIndex[p.idx+1]
 	}
 
 	absR := r
@@ -114,13 +116,18 @@ func (p *contentProvider) findOffset(filename bool, r uint32) uint32 {
 	}
 
 	byteOff, left := sample.lookup(absR)
+	if left > r {
+		// The sample lies in an earlier document. Documents are decoded one by
+		// one when indexing, so do not decode across the document boundary.
+		byteOff, left = fileStartByte, r
+	}
 
 	var data []byte
 
 	if filename {
-		data = p.id.fileNameContent[byteOff:]
+		data = p.id.fileNameContent[byteOff:fileEndByte]
 	} else {
-		data, p.err = p.id.readContentSlice(byteOff, utf8.UTFMax*runeOffsetFrequency)
+		data, p.err = p.id.readContentSlice(byteOff, min(utf8.UTFMax*runeOffsetFrequency, fileEndByte-byteOff))
 		if p.err != nil {
 			return 0
 		}
